@@ -11,16 +11,21 @@ KINDS = {'fn': 10, 'ident': 2, 'const': 2, 'product': 2, 'barrier': 1, 'byvalue'
          'switch_missing': 1, 'check_ids': 1}
 
 
-def build_compiler(case, world):
-    """the real GraphCompiler over Node objects and bound edges of the described graph"""
+def build_compiler(case, world, share=False):
+    """the real GraphCompiler over Node objects and bound edges of the described graph; with `share`, nodes whose edges have equal
+    descriptions are bound through ONE edge object (what `EdgesBag.freeze` and class-level edges do when a layer is used twice)"""
     paths.use_repo()
+    import json
     from connectome.engine import Node, GraphCompiler
     rv = RealVM(case, world)              # only to reuse its edge factory through TreeNodes
     nodes = [Node(n['name']) for n in case['nodes']]
     edges = []
+    pool = {}
     for i, n in enumerate(case['nodes']):
         if n['edge'] is not None:
             tree_edge = rv.nodes[i].edge
+            if share:
+                tree_edge = pool.setdefault(json.dumps([n['edge'], len(n['parents'])], sort_keys=True), tree_edge)
             edges.append(tree_edge.bind([nodes[p] for p in n['parents']], nodes[i]))
     inputs = [nodes[i] for i in case['inputs']]
     outputs = [nodes[i] for i, n in enumerate(case['nodes']) if n['edge'] is not None]
@@ -109,11 +114,81 @@ def run_case(seed):
     return None, evaluations
 
 
+def run_shared_impure(seed):
+    """one edge object bound several times (also to the same parents), pure and impure: every binding is a node of its own - an
+    impure function is invoked once per reached binding and the draws are different values"""
+    rng = random.Random(seed)
+    from .sym import SymWorld, Imp
+    from .gen_vm import reachable
+    n_in = rng.randint(0, 2)
+    nodes = [{'name': f'x{i}', 'edge': None, 'parents': []} for i in range(n_in)]
+    protos = []
+    for j in range(rng.randint(1, 3)):
+        arity = rng.choice([0, 0, 1]) if n_in else 0
+        imp = rng.random() < 0.7
+        inner = {'k': 'fn', 'f': ('r' if imp else 'f') + str(j), 'kw': [], 'silent': []}
+        protos.append(({'k': 'impure', 'inner': inner} if imp else inner, [rng.randrange(n_in) for _ in range(arity)], imp))
+    draws = []
+    for j in range(rng.randint(2, 5)):
+        e, parents, imp = rng.choice(protos)
+        nodes.append({'name': f'd{j}', 'edge': e, 'parents': list(parents)})
+        draws.append(len(nodes) - 1)
+    for j in range(rng.randint(1, 3)):
+        ps = [rng.choice(draws) for _ in range(rng.randint(1, 3))]
+        nodes.append({'name': f'p{j}', 'edge': {'k': 'fn', 'f': f'g{j}', 'kw': [], 'silent': []}, 'parents': ps})
+    case = {'nodes': nodes, 'inputs': list(range(n_in)), 'stores': [], 'impure': sorted({e['inner']['f'] for e, _, imp in protos if imp})}
+    world = SymWorld()
+    try:
+        compiler = build_compiler(case, world, share=True)
+    except Exception:
+        return None, 0
+    env = {f'x{i}': i for i in range(n_in)}
+    names = [n['name'] for n in nodes if n['edge'] is not None]
+    index = {n['name']: i for i, n in enumerate(nodes)}
+    evals = 0
+    for _ in range(3):
+        req = tuple(rng.sample(names, rng.randint(1, min(3, len(names)))))
+        reach = set()
+        for name in req:
+            reach |= reachable(case, index[name])
+        want_calls = {}
+        for i in reach:
+            e = nodes[i]['edge']
+            if e is not None and e['k'] == 'impure':
+                want_calls[e['inner']['f']] = want_calls.get(e['inner']['f'], 0) + 1
+        mark = world.mark()
+        try:
+            g = compiler.compile(req)
+            got = g(**{p: env[p] for p in g.__signature__.parameters})
+        except Exception as e:
+            return {'case': case, 'request': req, 'msg': f'request {req} over shared edge objects raised {exc_name(e)}'}, evals
+        evals += 1
+        calls = {}
+        for f, pos, kw in world.since(mark):
+            if f in case['impure']:
+                calls[f] = calls.get(f, 0) + 1
+        if calls != want_calls:
+            return {'case': case, 'request': req, 'kind': 'shared-edge-object',
+                    'msg': f'request {req}: the impure functions were invoked {calls} times but the requested fields reach {want_calls} '
+                           f'bindings of them (one edge object bound several times: every binding is a computation of its own)'}, evals
+        direct = [(name, v) for name, v in zip(req, got) if isinstance(v, Imp)]
+        for a in range(len(direct)):
+            for b2 in range(a + 1, len(direct)):
+                if direct[a][0] != direct[b2][0] and direct[a][1].serial == direct[b2][1].serial:
+                    return {'case': case, 'request': req, 'kind': 'shared-edge-object',
+                            'msg': f'fields {direct[a][0]} and {direct[b2][0]} are two bindings of an impure function but returned the same draw'}, evals
+    return None, evals
+
+
 def run_shard(args):
     seed, n = args
     bad, evals = [], 0
     for i in range(n):
         b, e = run_case(seed * 104723 + i)
+        evals += e
+        if b:
+            bad.append(b)
+        b, e = run_shared_impure(seed * 7919 + i)
         evals += e
         if b:
             bad.append(b)
